@@ -21,8 +21,8 @@ RULE = ("cell = (conditional class, (Dx,Dy) with Dx != Dy included, mode in {R=1
         "be a well-formed batch with one component per observation: slice, product() and multiply "
         "with a prior compared with the oracle sums; non-trivial: all; distinct = cell tuple")
 
-DIMS_Q = [(1, 1), (2, 1), (1, 2), (2, 2), (3, 2), (2, 3)]
-DIMS_T = DIMS_Q + [(3, 1), (1, 3), (3, 3), (4, 2), (2, 4), (5, 3), (4, 4)]
+DIMS_Q = [(1, 1), (2, 1), (1, 2), (2, 2), (3, 2), (2, 3), (4, 4), (5, 2)]
+DIMS_T = DIMS_Q + [(3, 1), (1, 3), (3, 3), (4, 2), (2, 4), (5, 3), (2, 6)]
 
 
 def cells(tier, seed):
@@ -33,7 +33,7 @@ def cells(tier, seed):
         for (Dx, Dy) in dims:
             if ck.startswith("identity") and Dx != Dy:
                 continue
-            for (R, N) in ((1, 1), (1, 2), (1, 5), (3, 3)):
+            for (R, N) in ((1, 1), (1, 2), (1, 5), (3, 3), (6, 6)):
                 out.append({"ck": ck, "Dx": Dx, "Dy": Dy, "R": R, "N": N, "reps": reps,
                             "group": [Dx, Dy, R, N], "cost": 1.0})
     return out
